@@ -56,6 +56,11 @@ def std_case(item):
     from nessai.samplers.nestedsampler import NestedSampler as NS
 
     seed, target, fire_at, signum, opcodes = item
+    # ("resumed", T): the run is first terminated once by the real handler at an iteration boundary
+    # and resumed; the window is iteration T of the RESUMED run (a job pre-empted twice)
+    pre_signal = False
+    if isinstance(target, (tuple, list)) and target[0] == "resumed":
+        pre_signal, target = True, target[1]
     runs.reset_globals()
     out = runs.scratch("c13")
     kw = runs.std_base(seed, **STD_CFG["kwargs"])
@@ -119,7 +124,25 @@ def std_case(item):
     exit_code = None
     handler_error = None
     try:
-        fs = FlowSampler(model, output=out, resume=False, **copy.deepcopy(kw))
+        if pre_signal:
+            fs0 = FlowSampler(make("G2"), output=out, resume=False, **copy.deepcopy(kw))
+            wrapped = NS.check_state
+
+            def cs0(ns, *a, **k):
+                if ns.iteration == 4:
+                    fs0.safe_exit(signal.SIGTERM, None)
+                return wrapped(ns, *a, **k)
+
+            NS.check_state = cs0
+            try:
+                fs0.run(plot=False, save=False)
+                raise RuntimeError("the first signal did not end the first leg")
+            except SystemExit:
+                pass
+            finally:
+                NS.check_state = wrapped
+            runs.reset_globals()
+        fs = FlowSampler(model, output=out, resume=pre_signal, **copy.deepcopy(kw))
         try:
             fs.run(plot=False, save=False)
         except SystemExit as e:
@@ -429,6 +452,8 @@ def run(ctx):
     ins_targets = ["init", 1, "fin"] if ctx.quick else ["init", 0, 1, 2, "fin"]
     # counting runs
     count_items = [("std", (seed, t, None, signal.SIGTERM, False)) for t in std_targets] + [("ins", (seed, t, None, signal.SIGTERM, False)) for t in ins_targets]
+    # a run that was already terminated once by the handler and resumed
+    count_items.append(("std", (seed, ("resumed", 23), None, signal.SIGTERM, False)))
     if not ctx.quick:
         count_items.append(("std", (seed, 23, None, signal.SIGTERM, True)))
     plans = []
@@ -441,6 +466,8 @@ def run(ctx):
         ctx.count("injection_sites", len(idxs))
         ctx.sample({"sampler": kind, "iteration": item[1], "phase": res["info"], "events": len(ev), "sites_after_dedup": len(idxs), "first_sites": [list(ev[i][:2]) for i in idxs[:4]]}, limit=12)
         sigs = [signal.SIGTERM]
+        if isinstance(item[1], (tuple, list)) and ctx.quick:
+            idxs = idxs[:: max(1, len(idxs) // 40)]  # quick: a lattice of the sites of the resumed run
         for i in idxs:
             plans.append((kind, (seed, item[1], i, signal.SIGTERM, item[4])))
         if not ctx.quick:
@@ -460,10 +487,10 @@ def run(ctx):
                 continue
             seen.add(c)
             chain = [f"{q}:{ln}" for q, ln, src in (res["fired"] or [])][:4]
-            ctx.violation(f"{kind}:inconsistent-after-signal@{site}", f"{c}: {d} | signal {int(item[3])} before line [{site}] (iteration {item[1]}, frames {chain})", {"kind": kind, "item": [x if isinstance(x, (bool, str)) or x is None else int(x) for x in item]})
+            ctx.violation(f"{kind}:inconsistent-after-signal@{site}", f"{c}: {d} | signal {int(item[3])} before line [{site}] (iteration {item[1]}, frames {chain})", {"kind": kind, "item": [x if isinstance(x, (bool, str, list, tuple)) or x is None else int(x) for x in item]})
             break
     ctx.set("distinct_nontrivial", len(site_classes))
-    ctx.set("rule", "signal handler invoked before every line event of every nessai frame inside the chosen iterations, inside the initialisation of a fresh run of either sampler ('init': NestedSampler.initialise / ImportanceNestedSampler.initialise, i.e. proposals and initial points) and inside the finalisation of both samplers ('fin': from entry to NestedSampler.finalise / ImportanceNestedSampler.finalise until it returns, including the forced final checkpoint write) (loop bodies de-duplicated to first/second/last occurrence of each (function, line)); thorough adds more iterations, opcode-level events in consume_sample / insert_live_point / _NSIntegralState.increment and SIGINT/SIGALRM on a sub-lattice. Distinct/non-trivial: distinct sampler-level statements (site keys) interrupted")
+    ctx.set("rule", "signal handler invoked before every line event of every nessai frame inside the chosen iterations, inside the initialisation of a fresh run of either sampler ('init': NestedSampler.initialise / ImportanceNestedSampler.initialise, i.e. proposals and initial points) and inside the finalisation of both samplers ('fin': from entry to NestedSampler.finalise / ImportanceNestedSampler.finalise until it returns, including the forced final checkpoint write) (loop bodies de-duplicated to first/second/last occurrence of each (function, line)); plus an iteration of a run that had already been terminated once by the handler and resumed (quick: a lattice of 40 of its sites); thorough adds more iterations, opcode-level events in consume_sample / insert_live_point / _NSIntegralState.increment and SIGINT/SIGALRM on a sub-lattice. Distinct/non-trivial: distinct sampler-level statements (site keys) interrupted")
     ctx.set("bounds", dict(std_iterations=std_targets, ins_iterations=ins_targets, signals=["SIGTERM"] + ([] if ctx.quick else ["SIGINT", "SIGALRM"])))
     ctx.set("exhaustive", True)
     ctx.assume(
